@@ -7,20 +7,22 @@ s = open(p).read()
 i = s.index("### 10.6 Seeded changes and which checks report them")
 table = subprocess.check_output([os.path.join(V, "tools", "seedtable.py")], text=True)
 n = sum(1 for d in os.listdir(os.path.join(V, "seeded")) if os.path.exists(os.path.join(V, "seeded", d, "meta.json")))
-byround = {"A": [0, 0], "B": [0, 0], "C": [0, 0]}
+byround = {"A": [0, 0], "B": [0, 0], "C": [0, 0], "D": [0, 0]}
 for d in os.listdir(os.path.join(V, "seeded")):
     mp = os.path.join(V, "seeded", d, "meta.json")
     if not os.path.exists(mp):
         continue
     m = json.load(open(mp))
     k = d.split("-")[1][0]
-    rnd = k if k in ("B", "C") else "A"
+    rnd = k if k in ("B", "C", "D") else "A"
     byround[rnd][0] += 1
     byround[rnd][1] += 1 if m.get("detected_by") else 0
 intro = """### 10.6 Seeded changes and which checks report them
 
-Three rounds, one sub-agent per claimed property and round, three changes each (%d kept; rounds B and C were told which
-functions the earlier rounds had touched and asked to go elsewhere, round C also to spread over files and mechanisms).
+Four rounds: A, B and C with one sub-agent per claimed property and three changes each, D with eight agents (the properties
+with the lowest hit rates) and two changes each (%d kept; rounds B to D were told which functions the earlier rounds had
+touched and asked to go elsewhere, C and D also to spread over files and mechanisms and to report, with reproducers,
+what they saw the unchanged tree do wrong).
 Every row was confirmed by me in a scratch copy (`tools/confirm_seed.sh`: builds, the 82 tests pass, the demonstration
 fails with the change and passes without) and is kept under `seeded/<id>/` with the patch, the demonstration and
 `meta.json`. "reported by" is the output of `tools/seedtest` (all checks, scratch copy with the patch applied) on the
@@ -32,13 +34,13 @@ re-made against the repaired tree with the same edit (the delivered patch is kep
 (F72). C12-1 was valid when produced and is neutralised by the repair F28; C10-B1 no longer applies because repair
 F70 rewrote the lines it changed (its defect class, a quotation mark in a DEFAULT string, was already handled by HEAD).
 
-Per round: A %d of %d reported, B %d of %d, C %d of %d.
+Per round: A %d of %d reported, B %d of %d, C %d of %d, D %d of %d.
 
 The misses are value-level: an off-by-one or wrong constant in a numeric bound, a wrong mask or threshold, the content
 of printed text or of an emitted table, a changed search or lookup preference, a protocol detail of a length or
 fragment encoding, a shortcut that is only wrong for some values. No clause visible in the shape of the code
 distinguishes them from the original, and an honest static rule for them would be a frozen copy of the constant.
 
-""" % (n, byround["A"][1], byround["A"][0], byround["B"][1], byround["B"][0], byround["C"][1], byround["C"][0])
+""" % (n, byround["A"][1], byround["A"][0], byround["B"][1], byround["B"][0], byround["C"][1], byround["C"][0], byround["D"][1], byround["D"][0])
 open(p, "w").write(s[:i] + intro + table)
 print("10.6 rewritten:", n, byround)
